@@ -213,7 +213,7 @@ def run(c):
         for i in range(nst):
             cases.append(("st%d" % i, gen.gen_st(c.rng)))
         for i in range(nmt):
-            cases.append(("mt%d" % i, gen.gen_mt(c.rng, 1.0 if c.tier == "quick" else 2.0)))
+            cases.append(("mt%d" % i, gen.gen_mt(c.rng, 1.0 if c.tier == "quick" else 2.0, 0.30 if c.tier == "quick" else 0.10)))
     st = [(i, l) for i, l in cases if l and l[0].startswith("st")]
     mt = [(i, l) for i, l in cases if l and l[0].startswith("mt")]
     r_st = vlib.run_cases(hasan, st, timeout=300) if st else {}
